@@ -544,7 +544,28 @@ def winredir_job():
                bounds={"calls": "one redirect_init + redirect_destroy", "streams": 3, "redirect_types": 7,
                        "outcomes": "every Win32/CRT call it makes succeeds or fails with any code 1..20000"})
 
+def winstart_job(cs):
+    return Job("h_winstart", variant="env%d" % cs, model=False, shim=False,
+               defines={"_WIN32": 1, "_WIN64": 1, "VP_CFGSET": cs},
+               cflags=["-I" + os.path.join(VERIF, "model", "win")],
+               unwind=14, timeout=900, solvers=("cadical", "minisat"),
+               bounds={"calls": "one process_start", "failures": "at most one failing call per run",
+                       "environment_options": ["EMPTY", "EXTEND, GetEnvironmentStringsW returns NULL", "EMPTY (parent block available, unused)", "EXTEND with parent block {P=1}"][cs], "argv": "{p, 'x y'}", "environment": "parent block {P=1} or none, extra {A=b} or none",
+                       "outcomes": "every Win32 call and every allocation succeeds or fails (any code 1..20000)"})
+
 add("C10", lambda tier: [winredir_job()])
+WINSTART_PROPS = ("C04", "C10", "C11", "C03", "C05")
+for _p in WINSTART_PROPS:
+    add(_p, lambda tier: [winstart_job(c) for c in range(4)])
+    META[_p]["units"] = list(META[_p]["units"]) + [
+        "reproc/src/process.windows.c (process_start, env_setup, env_concat, env_join, argv_join, "
+        "setup_attribute_list), compiled with -D_WIN32 -D_WIN64 against /verif/model/win/windows.h"]
+    META[_p]["assumptions"] = list(META[_p]["assumptions"]) + [
+        "Windows process_start: every Win32 call and allocation it makes is a stub that succeeds or fails; at most one "
+        "call fails per run, with any code 1..20000 and any stale last-error value before it; utf16_from_utf8 is a stub "
+        "returning pre-converted constant blocks chosen by the identity of its source (the source's text is checked); "
+        "fixed short argv {p, 'x y'}, environment {P=1}/none + {A=b}/none, working directory 'wd'/none; option combination "
+        "and position of an early failure are constants per call site of the harness, everything else is symbolic"]
 META["C10"]["units"] = START_UNITS + ["reproc/src/redirect.windows.c + handle.windows.c + error.windows.c (constants) "
                                       "under redirect.c's redirect_init / redirect_destroy, compiled with -D_WIN32 -D_WIN64"]
 META["C10"]["assumptions"] = START_ASSUME + [
